@@ -406,3 +406,241 @@ impl MultilinearPC {
         }
 //@end
 }
+// ======================= completeness of the multilinear scheme, over the contracts of setup, commit, open and check =======================
+// row i of the key extended by the (empty) row nv
+pub open spec fn mrowx(t: Seq<Fr>, i: nat, y: int) -> FS { if i >= t.len() { f_one() } else { mrow(t, i, y) } }
+// sum_{y < n} a[y] * row_i[y]:  the multilinear extension of the table a in the variables i.. at the trapdoor coordinates t_i..
+pub open spec fn rsum(t: Seq<Fr>, i: nat, a: Seq<FS>, n: nat) -> FS decreases n { if n == 0 { f_zero() } else { f_add(rsum(t, i, a, (n - 1) as nat), f_mul(a[n - 1], mrowx(t, i, n - 1))) } }
+// the product of eq factors from variable j up depends only on the index bits from j up
+pub proof fn lemma_eqtop_high_bits(t: Seq<Fr>, j: nat, x: int, x2: int)
+    requires j < t.len(), x >= 0, x2 >= 0, x / (pw(j) as int) == x2 / (pw(j) as int)
+    ensures eqtop(t, j, x) == eqtop(t, j, x2)
+    decreases t.len() - j
+{
+    vstd::arithmetic::power2::lemma_pow2_pos(j);
+    if j + 1 < t.len() {
+        vstd::arithmetic::power2::lemma_pow2_unfold(j + 1);
+        vstd::arithmetic::div_mod::lemma_div_denominator(x, pw(j) as int, 2);
+        vstd::arithmetic::div_mod::lemma_div_denominator(x2, pw(j) as int, 2);
+        assert(pw(j + 1) as int == pw(j) as int * 2) by (nonlinear_arith) requires pw(j + 1) == 2 * pw(j);
+        lemma_eqtop_high_bits(t, j + 1, x, x2);
+    }
+}
+// rows of consecutive levels:  row_i[2b] = row_{i+1}[b] (1 - t_i),  row_i[2b+1] = row_{i+1}[b] t_i
+pub proof fn lemma_mrow_pairs(t: Seq<Fr>, i: nat, b: int)
+    requires i < t.len(), b >= 0
+    ensures mrowx(t, i, 2 * b) == f_mul(mrowx(t, i + 1, b), f_sub(f_one(), t[i as int]@)), mrowx(t, i, 2 * b + 1) == f_mul(mrowx(t, i + 1, b), t[i as int]@)
+{
+    let p = pw(i) as int; let ti = t[i as int]@;
+    vstd::arithmetic::power2::lemma_pow2_pos(i); vstd::arithmetic::power2::lemma_pow2_unfold(i + 1);
+    let x0 = (2 * b) * p; let x1 = (2 * b + 1) * p;
+    assert(x0 == b * (2 * p)) by (nonlinear_arith) requires x0 == (2 * b) * p;
+    assert(x1 == b * (2 * p) + p) by (nonlinear_arith) requires x1 == (2 * b + 1) * p;
+    assert(x0 >= 0 && x1 >= 0) by (nonlinear_arith) requires x0 == (2 * b) * p, x1 == (2 * b + 1) * p, b >= 0, p > 0;
+    // bit i of x0 is 0, of x1 is 1
+    vstd::arithmetic::div_mod::lemma_div_multiples_vanish(2 * b, p);
+    vstd::arithmetic::div_mod::lemma_div_multiples_vanish(2 * b + 1, p);
+    assert(x0 == p * (2 * b) && x1 == p * (2 * b + 1)) by (nonlinear_arith) requires x0 == (2 * b) * p, x1 == (2 * b + 1) * p;
+    assert(x0 / p == 2 * b && x1 / p == 2 * b + 1);
+    assert(bit(x0, i) == 0 && bit(x1, i) == 1);
+    if i + 1 < t.len() {
+        // the higher factors are those of b * 2^(i+1)
+        let p2 = pw(i + 1) as int;
+        assert(p2 == 2 * p);
+        vstd::arithmetic::div_mod::lemma_fundamental_div_mod_converse(x0, p2, b, 0);
+        vstd::arithmetic::div_mod::lemma_fundamental_div_mod_converse(x1, p2, b, p);
+        assert(b * p2 == x0) by (nonlinear_arith) requires x0 == b * (2 * p), p2 == 2 * p;
+        lemma_eqtop_high_bits(t, i + 1, x1, x0);
+        assert(mrow(t, i + 1, b) == eqtop(t, i + 1, b * pw(i + 1)));
+        assert(eqtop(t, i, x0) == f_mul(eqtop(t, i + 1, x0), eq1(ti, 0)));
+        assert(eqtop(t, i, x1) == f_mul(eqtop(t, i + 1, x1), eq1(ti, 1)));
+    } else {
+        assert(eqtop(t, i, x0) == eq1(ti, 0) && eqtop(t, i, x1) == eq1(ti, 1));
+        ax_mul_comm(f_one(), f_sub(f_one(), ti)); ax_mul_one(f_sub(f_one(), ti)); ax_mul_comm(f_one(), ti); ax_mul_one(ti);
+    }
+}
+// folding a table at coordinate c:  a'[b] = a[2b] (1 - c) + a[2b+1] c
+pub open spec fn tfold(a: Seq<FS>, c: FS) -> Seq<FS> { Seq::new((a.len() / 2) as nat, |b: int| f_add(f_mul(a[2 * b], f_sub(f_one(), c)), f_mul(a[2 * b + 1], c))) }
+// the sum against row i of a table of 2n entries is the sum against row i+1 of the table folded at t_i
+pub proof fn lemma_rsum_fold(t: Seq<Fr>, i: nat, a: Seq<FS>, n: nat)
+    requires i < t.len(), a.len() >= 2 * n
+    ensures rsum(t, i, a, 2 * n) == rsum(t, i + 1, tfold(a, t[i as int]@), n)
+    decreases n
+{
+    if n > 0 {
+        let b = (n - 1) as int; let ti = t[i as int]@; let m = mrowx(t, i + 1, b); let u = f_sub(f_one(), ti);
+        lemma_rsum_fold(t, i, a, (n - 1) as nat);
+        lemma_mrow_pairs(t, i, b);
+        assert(rsum(t, i, a, (2 * n - 1) as nat) == f_add(rsum(t, i, a, (2 * n - 2) as nat), f_mul(a[2 * b], mrowx(t, i, 2 * b))));
+        assert(rsum(t, i, a, 2 * n) == f_add(rsum(t, i, a, (2 * n - 1) as nat), f_mul(a[2 * b + 1], mrowx(t, i, 2 * b + 1))));
+        // a0 (m u) + a1 (m ti) == (a0 u + a1 ti) m
+        let a0 = a[2 * b]; let a1 = a[2 * b + 1];
+        ax_mul_comm(m, u); ax_mul_assoc(a0, u, m); ax_mul_comm(m, ti); ax_mul_assoc(a1, ti, m);
+        ax_mul_comm(f_add(f_mul(a0, u), f_mul(a1, ti)), m); ax_distrib(m, f_mul(a0, u), f_mul(a1, ti)); ax_mul_comm(m, f_mul(a0, u)); ax_mul_comm(m, f_mul(a1, ti));
+        ax_add_assoc(rsum(t, i, a, (2 * n - 2) as nat), f_mul(a0, f_mul(m, u)), f_mul(a1, f_mul(m, ti)));
+        assert(tfold(a, ti)[b] == f_add(f_mul(a0, u), f_mul(a1, ti)));
+    }
+}
+pub proof fn lemma_rsum_ext(t: Seq<Fr>, i: nat, a: Seq<FS>, a2: Seq<FS>, n: nat)
+    requires n <= a.len(), n <= a2.len(), forall|y: int| 0 <= y < n ==> a[y] == a2[y]
+    ensures rsum(t, i, a, n) == rsum(t, i, a2, n)
+    decreases n
+{ if n > 0 { lemma_rsum_ext(t, i, a, a2, (n - 1) as nat); } }
+// linear in the table:  w = u + c v  ==>  rsum(w) = rsum(u) + c rsum(v)
+pub proof fn lemma_rsum_lin(t: Seq<Fr>, i: nat, u: Seq<FS>, v: Seq<FS>, c: FS, w: Seq<FS>, n: nat)
+    requires n <= u.len(), n <= v.len(), n <= w.len(), forall|y: int| 0 <= y < n ==> w[y] == f_add(u[y], f_mul(c, v[y]))
+    ensures rsum(t, i, w, n) == f_add(rsum(t, i, u, n), f_mul(c, rsum(t, i, v, n)))
+    decreases n
+{
+    if n == 0 { lemma_mul_zero(c); ax_add_zero(f_zero()); }
+    else {
+        let y = n - 1; let m = mrowx(t, i, y);
+        lemma_rsum_lin(t, i, u, v, c, w, (n - 1) as nat);
+        ax_mul_comm(w[y], m); ax_distrib(m, u[y], f_mul(c, v[y])); ax_mul_comm(m, u[y]); ax_mul_comm(m, f_mul(c, v[y])); ax_mul_assoc(c, v[y], m);
+        lemma_add_swap(rsum(t, i, u, (n - 1) as nat), f_mul(c, rsum(t, i, v, (n - 1) as nat)), f_mul(u[y], m), f_mul(c, f_mul(v[y], m)));
+        ax_distrib(c, rsum(t, i, v, (n - 1) as nat), f_mul(v[y], m));
+    }
+}
+// a key row (generator times the row entries) against a table
+pub proof fn lemma_row_dot(t: Seq<Fr>, i: nat, g: FS, row: Seq<FS>, a: Seq<FS>, n: nat)
+    requires n <= row.len(), n <= a.len(), forall|y: int| 0 <= y < n ==> row[y] == f_mul(g, mrowx(t, i, y))
+    ensures dot(row, a, n) == f_mul(g, rsum(t, i, a, n))
+    decreases n
+{
+    if n == 0 { lemma_mul_zero(g); }
+    else {
+        let y = n - 1; let m = mrowx(t, i, y);
+        lemma_row_dot(t, i, g, row, a, (n - 1) as nat);
+        ax_mul_assoc(g, m, a[y]); ax_mul_comm(m, a[y]);
+        ax_distrib(g, rsum(t, i, a, (n - 1) as nat), f_mul(a[y], m));
+    }
+}
+// (a0 (1-c) + a1 c) - (a0 (1-z) + a1 z) == (c - z)(a1 - a0)      [one pair of the table, folded at c and at z]
+pub proof fn lemma_fold_diff(a0: FS, a1: FS, c: FS, z: FS)
+    ensures f_add(f_mul(a0, f_sub(f_one(), c)), f_mul(a1, c)) == f_add(f_add(f_mul(a0, f_sub(f_one(), z)), f_mul(a1, z)), f_mul(f_sub(c, z), f_sub(a1, a0)))
+{
+    // a0 (1 - x) + a1 x == a0 + x (a1 - a0)
+    lemma_fold_form(a0, a1, c); lemma_fold_form(a0, a1, z);
+    let dd = f_sub(a1, a0);
+    // a0 + c d == (a0 + z d) + (c - z) d
+    ax_mul_comm(f_sub(c, z), dd); lemma_distrib_sub(dd, c, z); ax_mul_comm(dd, c); ax_mul_comm(dd, z);
+    let cd = f_mul(c, dd); let zd = f_mul(z, dd);
+    ax_add_assoc(a0, zd, f_sub(cd, zd)); ax_add_comm(cd, f_neg(zd)); ax_add_assoc(zd, f_neg(zd), cd); ax_add_neg(zd); ax_add_comm(f_zero(), cd); ax_add_zero(cd);
+}
+pub proof fn lemma_fold_form(a0: FS, a1: FS, x: FS)
+    ensures f_add(f_mul(a0, f_sub(f_one(), x)), f_mul(a1, x)) == f_add(a0, f_mul(x, f_sub(a1, a0)))
+{
+    lemma_distrib_sub(a0, f_one(), x); ax_mul_one(a0);
+    lemma_distrib_sub(x, a1, a0); ax_mul_comm(x, a1); ax_mul_comm(x, a0);
+    let p = f_mul(a0, x); let q = f_mul(a1, x);
+    // (a0 - p) + q == a0 + (q - p)
+    ax_add_assoc(a0, f_neg(p), q); ax_add_comm(f_neg(p), q);
+}
+// head(n) = sum_{j < n} (t_j - z_j) * Q_j,   Q_j = the j-th quotient table against row j (each quotient value used for both values of variable j)
+pub open spec fn mhead(t: Seq<Fr>, ev: Seq<FS>, z: Seq<FS>, n: nat) -> FS decreases n {
+    if n == 0 { f_zero() } else { let j = (n - 1) as nat; f_add(mhead(t, ev, z, j), f_mul(f_sub(t[j as int]@, z[j as int]), rsum(t, j, mscal(ev, z, j, pw((t.len() - j) as nat)), pw((t.len() - j) as nat)))) }
+}
+pub proof fn lemma_mfold_len(ev: Seq<FS>, z: Seq<FS>, nv: nat, i: nat)
+    requires i <= nv, ev.len() == pw(nv)
+    ensures mfold(ev, z, i).len() == pw((nv - i) as nat)
+    decreases i
+{
+    if i > 0 { lemma_mfold_len(ev, z, nv, (i - 1) as nat); vstd::arithmetic::power2::lemma_pow2_unfold((nv - i + 1) as nat); }
+}
+// the telescoping identity:  ev~(t) == r_i~(t_i..) + head(i)
+pub proof fn lemma_ml_telescope(t: Seq<Fr>, ev: Seq<FS>, z: Seq<FS>, i: nat)
+    requires i <= t.len(), ev.len() == pw(t.len()), z.len() >= t.len()
+    ensures rsum(t, 0, ev, pw(t.len())) == f_add(rsum(t, i, mfold(ev, z, i), pw((t.len() - i) as nat)), mhead(t, ev, z, i))
+    decreases i
+{
+    let nv = t.len();
+    if i == 0 { ax_add_zero(rsum(t, 0, ev, pw(nv))); }
+    else {
+        let j = (i - 1) as nat; let k = (nv - j) as nat; let h = pw((k - 1) as nat);
+        lemma_ml_telescope(t, ev, z, j);
+        lemma_mfold_len(ev, z, nv, j); lemma_mfold_len(ev, z, nv, i);
+        vstd::arithmetic::power2::lemma_pow2_unfold(k);
+        let r = mfold(ev, z, j); let r2 = mfold(ev, z, i); let tj = t[j as int]@; let zj = z[j as int]; let q = mquot(ev, z, j); let ms = mscal(ev, z, j, pw(k));
+        assert(r.len() == 2 * h && r2.len() == h && q.len() == h);
+        // r~(t_j..) folds at t_j;  r2 is r folded at z_j;  pairwise difference (t_j - z_j) q
+        lemma_rsum_fold(t, j, r, h);
+        let ft = tfold(r, tj);
+        assert forall|b: int| 0 <= b < h implies ft[b] == f_add(r2[b], f_mul(f_sub(tj, zj), q[b])) by { lemma_fold_diff(r[2 * b], r[2 * b + 1], tj, zj); }
+        lemma_rsum_lin(t, i, r2, q, f_sub(tj, zj), ft, h);
+        // the quotient table used twice against row j is the quotient table against row j+1
+        lemma_rsum_fold(t, j, ms, h);
+        let fq = tfold(ms, tj);
+        assert forall|b: int| 0 <= b < h implies fq[b] == q[b] by {
+            assert(ms[2 * b] == q[(2 * b) / 2] && ms[2 * b + 1] == q[(2 * b + 1) / 2]);
+            lemma_fold_form(q[b], q[b], tj); lemma_sub_self(q[b]); lemma_mul_zero(tj); ax_add_zero(q[b]);
+        }
+        lemma_rsum_ext(t, i, fq, q, h);
+        // reassociate: (A + head(j)) with A = B + c Q
+        let bb = rsum(t, i, r2, h); let cq = f_mul(f_sub(tj, zj), rsum(t, i, q, h));
+        ax_add_assoc(bb, cq, mhead(t, ev, z, j)); ax_add_comm(cq, mhead(t, ev, z, j));
+    }
+}
+//@lemma props=C01
+// COMPLETENESS of the multilinear scheme, stated over the values the contracts speak about: a key whose rows are the eq products at one trapdoor point t
+// (mlpc_setup_ok, postcondition of `setup`; `trim` with all variables keeps it), the commitment `commit` returns (c = <row 0 of G1, evaluations>), the proof `open`
+// returns (pfs[i] = <row i of G2, i-th quotient table used for both values of variable i>), the claimed value the fold of the table at the point (the multilinear
+// extension at z)  ==>  the equation `check` decides:  e(C - v G, H) == sum_i e(mask_i - z_i G, pi_i).
+pub proof fn lemma_mlpc_complete(t: Seq<Fr>, g: FS, h: FS, ev: Seq<FS>, z: Seq<FS>, c: FS, pfs: Seq<FS>, row_g0: Seq<FS>, rows_h: Seq<Seq<FS>>, masks: Seq<FS>)
+    requires
+        t.len() >= 1, ev.len() == pw(t.len()), z.len() >= t.len(),
+        row_g0.len() == pw(t.len()), forall|y: int| 0 <= y < pw(t.len()) ==> #[trigger] row_g0[y] == f_mul(g, mrow(t, 0, y)),
+        rows_h.len() == t.len(), forall|i: int| 0 <= i < t.len() ==> (#[trigger] rows_h[i]).len() == pw((t.len() - i) as nat),
+        forall|i: int, y: int| 0 <= i < t.len() && 0 <= y < pw((t.len() - i) as nat) ==> (#[trigger] rows_h[i][y]) == f_mul(h, mrow(t, i as nat, y)),
+        masks.len() == t.len(), forall|i: int| 0 <= i < t.len() ==> #[trigger] masks[i] == f_mul(g, t[i]@),
+        c == dot(row_g0, ev, pw(t.len())),
+        pfs.len() == t.len(), forall|i: int| 0 <= i < t.len() ==> #[trigger] pfs[i] == dot(rows_h[i], mscal(ev, z, i as nat, pw((t.len() - i) as nat)), pw((t.len() - i) as nat)),
+    ensures
+        pair(f_sub(c, f_mul(g, mfold(ev, z, t.len())[0])), h) == dot(Seq::new(t.len(), |i: int| f_sub(masks[i], f_mul(g, z[i]))), pfs, t.len())
+{
+    let nv = t.len(); let v = mfold(ev, z, nv)[0]; let lefts = Seq::new(nv, |i: int| f_sub(masks[i], f_mul(g, z[i])));
+    lemma_ml_telescope(t, ev, z, nv);
+    lemma_mfold_len(ev, z, nv, nv);
+    vstd::arithmetic::power2::lemma2_to64();
+    // the last level: one entry against the empty row
+    let rl = mfold(ev, z, nv);
+    assert(rsum(t, nv, rl, 1) == f_add(rsum(t, nv, rl, 0), f_mul(rl[0], mrowx(t, nv, 0))));
+    ax_mul_one(v); ax_add_comm(f_zero(), v); ax_add_zero(v);
+    assert(rsum(t, 0, ev, pw(nv)) == f_add(v, mhead(t, ev, z, nv)));
+    // c = g * ev~(t)
+    assert forall|y: int| 0 <= y < pw(nv) implies row_g0[y] == f_mul(g, mrowx(t, 0, y)) by {}
+    lemma_row_dot(t, 0, g, row_g0, ev, pw(nv));
+    // left: (g (v + head) - g v) h == (g head) h
+    let hd = mhead(t, ev, z, nv);
+    ax_distrib(g, v, hd); ax_add_comm(f_mul(g, v), f_mul(g, hd)); ax_add_assoc(f_mul(g, hd), f_mul(g, v), f_neg(f_mul(g, v))); ax_add_neg(f_mul(g, v)); ax_add_zero(f_mul(g, hd));
+    assert(f_sub(c, f_mul(g, v)) == f_mul(g, hd));
+    lemma_ml_right(t, g, h, ev, z, pfs, rows_h, masks, nv);
+}
+// right: sum_{i < n} (mask_i - g z_i) pi_i == (g head(n)) h
+pub proof fn lemma_ml_right(t: Seq<Fr>, g: FS, h: FS, ev: Seq<FS>, z: Seq<FS>, pfs: Seq<FS>, rows_h: Seq<Seq<FS>>, masks: Seq<FS>, n: nat)
+    requires n <= t.len(), z.len() >= t.len(), rows_h.len() == t.len(), masks.len() == t.len(), pfs.len() == t.len(),
+        forall|i: int| 0 <= i < t.len() ==> (#[trigger] rows_h[i]).len() == pw((t.len() - i) as nat),
+        forall|i: int, y: int| 0 <= i < t.len() && 0 <= y < pw((t.len() - i) as nat) ==> (#[trigger] rows_h[i][y]) == f_mul(h, mrow(t, i as nat, y)),
+        forall|i: int| 0 <= i < t.len() ==> #[trigger] masks[i] == f_mul(g, t[i]@),
+        forall|i: int| 0 <= i < t.len() ==> #[trigger] pfs[i] == dot(rows_h[i], mscal(ev, z, i as nat, pw((t.len() - i) as nat)), pw((t.len() - i) as nat)),
+    ensures dot(Seq::new(t.len(), |i: int| f_sub(masks[i], f_mul(g, z[i]))), pfs, n) == f_mul(f_mul(g, mhead(t, ev, z, n)), h)
+    decreases n
+{
+    let lefts = Seq::new(t.len(), |i: int| f_sub(masks[i], f_mul(g, z[i])));
+    if n == 0 { lemma_mul_zero(g); ax_mul_comm(f_zero(), h); lemma_mul_zero(h); }
+    else {
+        let j = (n - 1) as nat; let ji = j as int; let k = pw((t.len() - j) as nat); let ms = mscal(ev, z, j, k); let qj = rsum(t, j, ms, k); let d = f_sub(t[ji]@, z[ji]);
+        lemma_ml_right(t, g, h, ev, z, pfs, rows_h, masks, j);
+        assert forall|y: int| 0 <= y < k implies rows_h[ji][y] == f_mul(h, mrowx(t, j, y)) by { assert(rows_h[ji][y] == f_mul(h, mrow(t, j, y))); }
+        assert(rows_h[ji].len() == k);
+        lemma_row_dot(t, j, h, rows_h[ji], ms, k);
+        assert(pfs[ji] == f_mul(h, qj));
+        // (g t_j - g z_j)(h Q) == (g (d Q)) h
+        lemma_distrib_sub(g, t[ji]@, z[ji]);
+        assert(lefts[ji] == f_mul(g, d));
+        ax_mul_comm(h, qj); ax_mul_assoc(f_mul(g, d), qj, h); ax_mul_assoc(g, d, qj);
+        // (g head_j) h + (g (d Q)) h == (g (head_j + d Q)) h
+        let hj = mhead(t, ev, z, j); let x = f_mul(d, qj);
+        ax_distrib(g, hj, x);
+        ax_mul_comm(f_add(f_mul(g, hj), f_mul(g, x)), h); ax_distrib(h, f_mul(g, hj), f_mul(g, x)); ax_mul_comm(h, f_mul(g, hj)); ax_mul_comm(h, f_mul(g, x));
+    }
+}
